@@ -52,8 +52,8 @@ func init() {
 		Rule:   "as C01; every commit callback's (block, proof) is re-validated with strict ValidateBlockConsensus on another correct node and by the reference certificate predicate; non-trivial = a commit was judged in a case where adversarial messages were delivered",
 		Floors: map[string]int{"C03 commits validated on a peer": 1000},
 		Judged: []string{"C03 commits validated on a peer"}})
-	reg(&sim.SimCheck{Prop: "C04", Workload: "c04", Profile: advProfile(merge(map[string]int{"barePP": 5}, map[string]int{"badBlock": 25, "twistedNV": 20, "support": 25, "forgedNV": 8, "equivocate": 10, "crossInstance": 14, "reblock": 30, "vcGames": 15}), 500, 2),
-		QuickCases: 5000, ThoroughCases: 120000,
+	reg(&sim.SimCheck{Prop: "C04", Workload: "c04", Profile: advProfile(merge(map[string]int{"barePP": 5}, map[string]int{"badBlock": 25, "twistedNV": 20, "support": 25, "forgedNV": 8, "equivocate": 10, "crossInstance": 14, "reblock": 30, "vcGames": 28}), 500, 2),
+		QuickCases: 8000, ThoroughCases: 120000,
 		NonTrivial: func(r *sim.Result) bool { return r.Stats["C04 commits judged"] > 0 && r.Stats["adv badBlock"] > 0 },
 		Rule:       "as C01 with Byzantine leaders proposing blocks every correct validator rejects (view 0, inside NEW_VIEWs) and per-node consumer rejections; non-trivial = a commit was judged in a case where a bad block had been proposed",
 		Floors:     map[string]int{"C04 commits judged": 1000, "adv badBlock": 500},
